@@ -22,6 +22,19 @@ CHECKS = {
  "C04": ("translation_validation",
          "Coq theorems over Z (access inversion, halo of a tile contains every needed input, tiles partition [0,Q), interval clipping), a kernel-computed refutation of exactness in binary64 (finding F11) and a finite exactness sweep for power-of-two denominators + kernel-evaluated execution (PrimFloat = Python floats) of every emitted affine program against the dense oracle with out-of-extent detection. Four known findings (F4, F5, F11, F12) are keyed structurally on the emitted text.",
          EXEC_NOTE + "PrimFloat/PrimInt63 kernel primitives appear under Print Assumptions of the two float theorems.", "Rocq theorems (lia; vm_compute float witnesses) + kernel-evaluated execution vs oracle", "DESIGN.md section 6 C04"),
+ "C05": ("translation_validation",
+         "Coq theorems on the Tensor state machine (reset restores the initial state after ANY history; histories before a reset are irrelevant; init ranks never written), tied to teaal.ir.tensor.Tensor by T-eq on random operation sequences + kernel-evaluated execution of whole cascades against the chained dense oracle + implementation-vs-implementation: the text of Einsum i inside every cascade equals its stand-alone compilation up to temporary numbering, for every prefix.",
+         EXEC_NOTE, "Rocq theorems (state machine) + model/code correspondence + kernel-evaluated execution + section-vs-standalone text", "DESIGN.md section 6 C05"),
+ "C06": ("proof",
+         "Coq theorems C06_da_sound / C06_da_block_sound / C06_da_block_complete: the definite-assignment analysis da (Model/Closed.v) accepts a program iff on EVERY path (loops zero or more times, either branch of an if) no statement reads an unbound name (all-paths name semantics; loop targets do not flow out). Certified validation (T-val): every program emitted by the current tree for the C01-C05 populations, the same with spacetime (graphics mode) and the accelerator/compute-only specifications (metrics mode) is parsed by CPython's ast, translated fail-closed and da_block (user_names spec) evaluated by the kernel; user_names is computed from the specification alone. With da_sound each accepted program is proved closed on all paths.",
+         "Trusted: Coq kernel+VM; tools/py2coq.py; CPython ast.parse as the definition of 'parses as Python'; the harness's user_names; the all-paths abstraction (values ignored, every branch possible). Theorems closed under the global context.",
+         "Rocq proof of a definite-assignment checker (sound+complete for all-paths semantics) evaluated by the kernel on every emitted program", "DESIGN.md section 6 C06"),
+ "C07": ("translation_validation",
+         "Coq theorems: every tensor-producing operation of the modelled runtime only allocates (fresh_ops_frame: pre-existing objects, hence user inputs, and the environment are untouched), setRankIds writes only its receiver, the compiler-side tensor name spells the active ranks + kernel-evaluated post-condition on the final state of every execution (every <Name>_<Ranks> variable holds those rank ids; results bound under declared name/rank order in original coordinates; every input unchanged).",
+         EXEC_NOTE, "Rocq frame theorems on the runtime model + kernel-evaluated post-conditions on every execution", "DESIGN.md section 6 C07"),
+ "C16": ("translation_validation",
+         "Coq theorems: the emitted slip counter discipline yields pairwise distinct stamps for any sequence (slip_unique), one per activity; canvas/metrics API calls of the modelled runtime are observation-only + kernel-evaluated execution of graphics-mode programs with a recording canvas: tensors equal the oracle, one activity per executed update, point arities, distinct stamps for well-ordered loop orders.",
+         EXEC_NOTE, "Rocq theorems (list induction; frame) + kernel-evaluated execution with a recording canvas", "DESIGN.md section 6 C16"),
  "C13": ("proof",
          "Coq theorems (coq/Props/C13.v): for every history of Einsums with any features, the fusion automaton yields a legal ordered partition (C13_fusion_legal, induction over the history with the invariant that components_used covers the open block); verified sound+complete decision procedure legal_blocks_b. Tied to the current tree on every run by driving the real Program/Hardware/Fusion objects and the emitted metrics[\"blocks\"] with generated histories, comparing with the model (T-eq) and evaluating the verified checker on the code's own blocks (T-ref) inside coqc.",
          "Trusted: Coq kernel+VM; the harness's feature extraction from generated YAML; hand-written model Model/Fusion.v tied by correspondence on ~1000 (quick) generated histories. All theorems closed under the global context.",
